@@ -166,7 +166,7 @@ def run_mode(chk, programs, results, srcs, events, meta):
         has_const = any(it["kind"] == "const" and it["annotated"] for it in items)
         for lang in common.LANGS:
             r = per[lang]
-            if r["status"] in ("panic", "abort"):
+            if r["status"] in ("panic", "abort", "hang"):
                 continue      # C07 (write_const todo!() in Kotlin/Swift is a known finding there)
             if r["status"] == "unreadable":
                 chk.extra.setdefault("unreadable_outputs", {}).setdefault(lang, 0)
